@@ -1918,6 +1918,19 @@ def _fmt_rfc3339(utc,off,use_z,nanos=0):
     return s+'%s%02d:%02d'%(sign,o//3600,(o%3600)//60)
 def m_to_rfc3339_opts(e,run,a,f):
     d=deref(a[0]); fmt=deref(a[1])
+    if fmt.vname in ('AutoSi','Nanos'):
+        # the fraction is written (AutoSi: with as many digits - 0, 3, 6 or 9 - as it needs): the text carries the nanoseconds
+        off=0 if d.ty=='DateTime' else d.f[2].v
+        loc=d.f[0].z() if d.ty=='DateTime' else e.binop('Add',d.f[0],_off64(d)).z()
+        if d.f[0].conc() and d.f[1].conc() and (isinstance(off,int) or d.f[2].conc()):
+            o=off if isinstance(off,int) else d.f[2].signed_val(); uz=deref(a[2]); uz=uz.v if isinstance(uz,Bool) and uz.conc() else True
+            n=d.f[1].v; txt=_fmt_rfc3339(d.f[0].signed_val(),o,uz,0)
+            if n and fmt.vname=='AutoSi':
+                fr='%09d'%(n%1000000000); fr=fr[:3] if fr[3:]=='000000' else (fr[:6] if fr[6:]=='000' else fr)
+                i=txt.index('T')+9; txt=txt[:i]+'.'+fr+txt[i:]
+            elif fmt.vname=='Nanos': i=txt.index('T')+9; txt=txt[:i]+'.%09d'%(n%1000000000)+txt[i:]
+            return StringO(list(txt.encode()),False,{'kind':'rfc3339','local_secs':d.f[0].signed_val()+o,'nanos':n,'offset':o})
+        return StringO(list(b'<rfc3339>'),True,{'kind':'rfc3339','local_secs':loc,'nanos':d.f[1].v,'offset':off})
     if fmt.vname!='Secs': raise Unsupported('to_rfc3339_opts '+str(fmt.vname))
     use_z=deref(a[2]); use_z=use_z.v if isinstance(use_z,Bool) and use_z.conc() else True
     offv=Int(32,True,0) if d.ty=='DateTime' else d.f[2]
